@@ -47,7 +47,7 @@ func (e raceEngine) Gen(prop, tier string, seed uint64, idx int) *runner.Case {
 	if idx < rnd {
 		rng := gen.NewRng(seed, idx)
 		c.Name = "rnd/" + strconv.Itoa(idx)
-		doc := gen.Doc(rng, gen.DocCfg{Hostile: gen.Chance(rng, 40), Depth: 1 + rng.IntN(2), Extended: true, PatEnum: true, RefPct: 20, Security: true, BadParamRefs: gen.Chance(rng, 30), MaxPaths: 3})
+		doc := gen.Doc(rng, gen.DocCfg{Hostile: gen.Chance(rng, 40), Depth: 1 + rng.IntN(2), Extended: true, PatEnum: true, RefPct: 20, Security: true, BadParamRefs: gen.Chance(rng, 30), MaxPaths: 3, OpNoResp: gen.Chance(rng, 30)})
 		c.Files["doc.json"] = string(jx.Canon(doc))
 		return c
 	}
